@@ -538,6 +538,11 @@ async fn start_lsp_server() {
     // RUST_LOG=warn pytest-language-server (default)
     tracing_subscriber::fmt()
         .with_writer(std::io::stderr)
+        // Logging is best effort: when stderr cannot be written (the client closed the pipe,
+        // the log file's disk is full) the event is dropped. By default the layer reports
+        // the failure with eprintln!, which panics on the same broken stderr - on whatever
+        // thread logged, the scan or the task that serves all requests.
+        .log_internal_errors(false)
         .with_ansi(false)
         .with_env_filter(
             tracing_subscriber::EnvFilter::try_from_default_env()
